@@ -22,11 +22,11 @@ def augment_c15(r, ops, nbody=[0]):
     return out
 
 
-def run_generic(PROP, MODULES, judge_comp, tier, seed, replay, augment, n_quick, n_thorough, text):
+def run_generic(PROP, MODULES, judge_comp, tier, seed, replay, augment, n_quick, n_thorough, text, extra=None):
     t0 = time.time()
     v = core.Verdict(PROP, seed)
     core.clear_replays(PROP)
-    st = lean.prepare(MODULES)
+    st = lean.prepare(MODULES, extra=extra)
     core.log(PROP, f"lean: {len(st.discharged)}/{len(st.theorems)} theorems re-checked; extract {st.extract_count} constants; {st.build_s:.1f}s")
     try:
         exe = sim.build_sim("s_proto", ["s_proto.c"])
